@@ -195,8 +195,76 @@ let check_prune hdrs bad steps obs =
     detail = if !ok && m = obs then "" else
         Printf.sprintf "%s model=%s" !why (if String.length m > 600 then String.sub m 0 600 ^ "..." else m) }
 
+(* ---- keyword `tree` (props/C32/harness_tree_test.go): the refined environment of
+   coq/C32/ProofsNeverTwice.v (pinit / p_step: p_import_block with the parent-in-tree refusal,
+   pfinalise = BlockTree.Prune) against the real dot/state.BlockState. Per step the outcome, the
+   set HasHeader answers (pe_known) and the set of tree nodes (pe_known restricted to in_tree) are
+   compared; the property predicate on the Go observables: no hash is ever added twice, and the
+   genesis never. *)
+let check_tree hdrs steps obs =
+  let hd = parse_headers hdrs in
+  let ids l = join "." (List.map (fun i -> Printf.sprintf "%x" i) (List.sort compare (List.map int_of_n l))) in
+  let sets (e : penv) =
+    ids (List.map (fun k -> k.pb_hash) e.pe_known) ^ ":" ^
+    ids (List.map (fun k -> k.pb_hash) (List.filter (fun k -> in_tree e k) e.pe_known)) in
+  let tags = ref ["tree-env"] in
+  let tag t = if not (List.mem t !tags) then tags := t :: !tags in
+  let e = ref (pinit N0 (ni 0xffffffff)) in
+  let model = List.map (fun st ->
+    let i = int_of_n (n_of_hex (String.sub st 1 (String.length st - 1))) in
+    if i >= Array.length hd then fail "bad step %s" st;
+    let h = hd.(i) in
+    let o = (match st.[0] with
+      | 'a' ->
+        let was_stored = pever !e h.h_hash && not (pknows !e h.h_hash) in
+        if was_stored then tag "reoffer-pruned";
+        let b = { d_hash = h.h_hash; d_header = Some h; d_body = true; d_just = false } in
+        let (evs, e1) = p_step !e (PBlock b) in
+        e := e1;
+        (match evs with
+         | [PE (EImport _)] -> tag "added"; "i"
+         | [PE (ESkip _)] -> tag "skip-stored"; "s"
+         | [PE (EOrphan _)] -> tag "parent-never-stored"; "o"
+         | [PE (EOrphanPruned _)] -> tag "parent-pruned"; "o"
+         | [PNotInTree _] -> tag (if was_stored then "reoffer-pruned-parent-off-tree" else "parent-off-tree"); "t"
+         | [PE (EDup _)] -> tag "dup"; "d"
+         | _ -> "?")
+      | 'f' ->
+        let before = List.length !e.pe_known in
+        let r = (match List.find_opt (fun k -> k.pb_hash = h.h_hash) !e.pe_known with
+          | None -> tag "fin-unknown"; "U"
+          | Some fb -> if in_tree !e fb then (tag "fin-ok"; "F") else (tag "fin-off-tree"; "E")) in
+        e := snd (p_step !e (PFin h.h_hash));
+        if List.length !e.pe_known < before then tag "fin-prunes";
+        r
+      | _ -> fail "bad step %s" st) in
+    o ^ ":" ^ sets !e) (split ',' steps) in
+  let m = String.concat "," model in
+  (* the property predicate on what the Go code did *)
+  let added = ref [] and ok = ref true and why = ref "" in
+  List.iter2 (fun st o ->
+    if String.length o >= 2 && o.[0] = 'i' && st.[0] = 'a' then begin
+      let i = String.sub st 1 (String.length st - 1) in
+      if List.mem i !added then (ok := false; why := "block " ^ i ^ " was added to the block state twice");
+      if n_of_hex i = N0 then (ok := false; why := "the genesis block was added");
+      added := i :: !added
+    end)
+    (let st = split ',' steps and ob = split ',' obs in
+     let rec take n l = if n <= 0 then [] else match l with [] -> [] | x :: r -> x :: take (n - 1) r in
+     take (List.length ob) st)
+    (let st = split ',' steps and ob = split ',' obs in
+     let rec take n l = if n <= 0 then [] else match l with [] -> [] | x :: r -> x :: take (n - 1) r in
+     take (List.length st) ob);
+  if List.exists (fun o -> String.length o >= 5 && String.sub o 0 5 = "panic") (split ',' obs) then
+    (ok := false; why := "the block state panicked");
+  { prop_ok = !ok; model_eq = (m = obs); nontrivial = !added <> []; finding = "-";
+    tags = String.concat "," (List.rev !tags);
+    detail = if !ok && m = obs then "" else
+        Printf.sprintf "%s model=%s" !why (if String.length m > 900 then String.sub m 0 900 ^ "..." else m) }
+
 let check inp obs =
   match split_ws inp with
+  | ["tree"; hdrs; steps] -> check_tree hdrs steps obs
   | ["prune"; hdrs; bad; steps] -> check_prune hdrs bad steps obs
   | [hdrs; bad; steps] ->
     let hd = parse_headers hdrs in
